@@ -36,6 +36,8 @@ PATS = ["x = 1", "_a_ = _a_ + _b_", "_a_ = _b_ + _a_", "___ = ___ + 2", "print(_
         "_x_ * _x_", "_x_ + _x_", "(_v_ + 1) + _v_", "_x_ * _y_", "_a_ = _b_ * _b_", "print(_x_ + 1, _x_ + 1)", "_x_ < _x_",
         # ordinary identifiers that only look like placeholders (private-style names): they name themselves
         "_x_ = 1", "print(0)", "[___, ___, 1]",       # int literals against bool literals of the program
+        # special-method names in a definition are names, not expression placeholders
+        "def __init__(self):\n    pass", "def __str__(self):\n    ___", "class __Meta__:\n    pass",
         "_row_count = 1", "print(_row_count)", "_load_data(___)", "__x = 1", "x_ = 1", "_tmp = 1", "_a_b = ___"]
 STM = ["x = 1", "y = x + 2", "print(x)", "total = total + n", "items.append(x)", "for i in items:\n    total = total + i",
        "if x > 2:\n    y = 1\nelse:\n    y = 2", "while x < 10:\n    x = x + 1", "def f(a, b):\n    return a * b",
@@ -44,7 +46,8 @@ STM = ["x = 1", "y = x + 2", "print(x)", "total = total + n", "items.append(x)",
        "y = 1", "z = f(y)", "x = x < x", "q = [y]", "r = {'a': x}", "x = 1.0", "print(x + 1, x + 1)",
        "hdr = 'name\tscore'", "items.remove(x)", "names.append(y)", "c = items.count", "d = items.index", "k = items.index(names.count(x))",
        "print(len(items))", "area = width * height", "t = (a + 1) + b", "sq = side * side", "d = x + x", "print(a + 1, b + 1)",
-       "_row_count = 1", "found = False", "print(False)"]
+       "_row_count = 1", "found = False", "print(False)", "def __str__(self):\n    pass", "def speak(self):\n    pass",
+       "class Point:\n    pass"]
 
 
 def _setup():
